@@ -234,6 +234,8 @@ op = st.one_of(
     st.tuples(st.just("stalekey"), st.integers(0, 50), st.sampled_from([3.0, 12.0, 12.0]), st.booleans()),
     # macro: enter a session, keep it alive for 12-30 s with suppressed TesterPresent every 4-6 s, then ask which session is active
     st.tuples(st.just("keepalive"), st.integers(0, 50), st.integers(3, 5), st.sampled_from([4.0, 6.0])),
+    # macro: requestSeed, one other request (which invalidates the seed unless it is an accepted TesterPresent), sendKey with that seed
+    st.tuples(st.just("staleseed"), st.integers(0, 50), st.sampled_from(["tp", "tp", "tp80", "f186", "raw"])),
 )
 
 
@@ -243,6 +245,9 @@ def expand(o: tuple[Any, ...]) -> list[tuple[Any, ...]]:
         # reset through an offered sub-function, then poll with the same request until the ECU is back (as wait_for_ecu does)
         poll = ("tp", False) if o[2] == 0 else ("f186",) if o[2] == 1 else ("raw", b"\x22\xf1\x90")
         return [("reset_offered", o[1]), poll, poll, poll]
+    if o[0] == "staleseed":
+        mid = {"tp": ("tp", False), "tp80": ("tp", True), "f186": ("f186",), "raw": ("raw", b"\x22\xf1\x90")}[o[2]]
+        return [("seedkey_seed", o[1]), mid, ("stalekey_key", o[1])]
     if o[0] == "keepalive":
         return [("dsc_offered", o[1], False)] + [e for _ in range(o[2]) for e in (("idle", o[3]), ("tp", True))] + [("idle", o[3]), ("f186",)]
     if o[0] == "stalekey":
@@ -255,7 +260,7 @@ def expand(o: tuple[Any, ...]) -> list[tuple[Any, ...]]:
 
 
 def resolve(o: tuple[Any, ...], model: dict[int, dict[int, list[int] | None]], session: int, prev: bytes | None,
-            last_seed: tuple[int, bytes] | None) -> bytes:
+            last_seed: tuple[int, bytes] | None, seen_seed: tuple[int, bytes] | None = None) -> bytes:
     """Abstract op -> request bytes, a pure function of (op, model, current state)."""
     k = o[0]
     cur = model.get(session, {})
@@ -307,6 +312,9 @@ def resolve(o: tuple[Any, ...], model: dict[int, dict[int, list[int] | None]], s
     if k == "stalekey_key":
         if last_seed is not None:
             return bytes([0x27, last_seed[0] + 1]) + (last_seed[1] or b"\x00")
+        if seen_seed is not None:
+            # the tester still holds the key for a seed the ECU has invalidated in the meantime
+            return bytes([0x27, seen_seed[0] + 1]) + (seen_seed[1] or b"\x00")
         sfs = [x for x in (cur.get(0x27) or []) if x % 2 == 1] or [1]
         return bytes([0x27, sfs[o[1] % len(sfs)] + 1, 0x01, 0x02])
     raise AssertionError(k)
@@ -382,6 +390,7 @@ class Driver:
         self.model = model_dict(self.server)
         self.prev: bytes | None = None
         self.last_seed: tuple[int, bytes] | None = None
+        self.seen_seed: tuple[int, bytes] | None = None  # the most recent seed the ECU handed out, valid or not
 
     def request(self, b: bytes) -> tuple[bytes | None, BaseException | None]:
         try:
@@ -390,6 +399,8 @@ class Driver:
             return None, e
         self.prev = b
         self.last_seed = next_last_seed(self.last_seed, b, r)
+        if self.last_seed is not None:
+            self.seen_seed = self.last_seed
         return r, None
 
     def idle(self, seconds: float) -> bool:
